@@ -111,7 +111,7 @@ def rule_no_operand_mutation(ctx: Ctx, rule: str = "operand-mutation") -> None:
                 # a private helper editing its own argument: judged where it is called
                 ctx.ok(rule, fi.key, "private helper edits its argument; judged at its call sites: " + norm(site.node)[:50], nontrivial=False)
                 continue
-            if fi.cls is not None and me is not None and fi.cls.name.startswith("_") and _new_class(fi.cls.name) and all(o[1] == me for o in porig) and not site.via:
+            if fi.cls is not None and me is not None and (fi.cls.name.startswith("_") or fi.module.base.startswith("_")) and _new_class(fi.cls.name) and all(o[1] == me for o in porig) and not site.via:
                 # a method of a private class the reference tree does not have (an accumulator / builder extracted
                 # later) edits the object it is called on: judged where that object comes from - a caller that hands
                 # an operand to such a method is reported there
@@ -326,6 +326,75 @@ def rule_time_only_in_stats(ctx: Ctx, rule: str = "impurity-sources") -> None:
                     bad.append(norm(node)[:60])
         construct = "%s: clock readings only reach the returned statistics" % fi.key
         (ctx.ok(rule, fi.key, construct) if not bad else ctx.violation(rule, fi.key, construct, "clock value used in %s" % bad[0], where=fi.where))
+    # the iteration order of a set of strings / variables depends on the interpreter's hash seed: it may be consumed
+    # by order-free operations only (len, in, sorted, min/max/sum/any/all, another set) - never turned into a list
+    # or iterated to build one
+    order_free = {"sorted", "len", "set", "frozenset", "min", "max", "sum", "any", "all", "bool"}
+    n_sets = 0
+    for fi in prog.all_functions():
+        if isinstance(fi.node, ast.Lambda):
+            continue
+        parents: Dict[ast.AST, ast.AST] = {}
+        for nd in ast.walk(fi.node):
+            for ch in ast.iter_child_nodes(nd):
+                parents[ch] = nd
+        for node in ast.walk(fi.node):
+            is_set = isinstance(node, (ast.Set, ast.SetComp)) or (isinstance(node, ast.Call) and isinstance(node.func, ast.Name) and node.func.id in ("set", "frozenset") and node.args)
+            if not is_set:
+                continue
+            par = parents.get(node)
+            ordered_use = None
+            if isinstance(par, ast.Call) and isinstance(par.func, ast.Name) and par.func.id in ("list", "tuple") and node in par.args:
+                ordered_use = norm(par)
+            elif isinstance(par, ast.comprehension) and par.iter is node:
+                comp = parents.get(par)
+                if isinstance(comp, (ast.ListComp, ast.GeneratorExp)) and not (isinstance(parents.get(comp), ast.Call) and isinstance(parents.get(comp).func, ast.Name) and parents.get(comp).func.id in order_free):
+                    ordered_use = norm(comp)
+            elif isinstance(par, ast.For) and par.iter is node:
+                ordered_use = "for ... in %s" % norm(node)
+            elif isinstance(par, ast.Starred):
+                ordered_use = norm(parents.get(par, par))
+            if ordered_use is None:
+                continue
+
+            def membership_only(use: ast.AST) -> bool:
+                """the sequence is only asked whether it contains something (right side of in / not in, second
+                argument of list_diff / list_intersection) or handed to an order-free consumer"""
+                pu = parents.get(use)
+                if isinstance(pu, ast.Compare) and len(pu.ops) == 1 and isinstance(pu.ops[0], (ast.In, ast.NotIn)) and pu.comparators[0] is use:
+                    return True
+                if isinstance(pu, ast.Call) and isinstance(pu.func, ast.Name):
+                    if pu.func.id in ("list_diff", "list_intersection") and len(pu.args) == 2 and pu.args[1] is use:
+                        return True
+                    if pu.func.id in order_free and use in pu.args:
+                        return True
+                return False
+
+            seq = par if isinstance(par, ast.Call) else None
+            if seq is not None:
+                if membership_only(seq):
+                    continue
+                holder = parents.get(seq)
+                if isinstance(holder, ast.Assign) and len(holder.targets) == 1 and isinstance(holder.targets[0], ast.Name) and holder.value is seq:
+                    nm = holder.targets[0].id
+                    loads = [x for x in ast.walk(fi.node) if isinstance(x, ast.Name) and x.id == nm and isinstance(x.ctx, ast.Load)]
+                    rebinds = [x for x in ast.walk(fi.node) if isinstance(x, ast.Name) and x.id == nm and isinstance(x.ctx, ast.Store)]
+                    if len(rebinds) == 1 and nm not in fi.params and loads and all(membership_only(x) for x in loads):
+                        continue
+            # inside an error message the order changes a text, not a result
+            up = par
+            in_raise = False
+            while up is not None:
+                if isinstance(up, ast.Raise) or (isinstance(up, ast.Call) and norm(up.func).startswith("logging.")):
+                    in_raise = True
+                    break
+                up = parents.get(up)
+            if in_raise:
+                continue
+            n_sets += 1
+            ctx.violation(rule, fi.key, "%s: no result depends on the iteration order of a set" % fi.key, "`%s` turns a set into a sequence: its order follows the hashes of its members, which change from one interpreter run to the next for strings and variables - the same call gives differently ordered results in different sessions" % ordered_use[:80], where="%s:%d" % (fi.module.relpath, node.lineno))
+    if not n_sets:
+        ctx.ok(rule, "-", "no set is turned into a sequence (or iterated to build one) outside error messages", nontrivial=False)
     # random / global counters
     for fi in prog.all_functions():
         for node in ast.walk(fi.node):
